@@ -97,7 +97,7 @@ func main() {
 	flag.Parse()
 	// the loaded SSA program is a large, long-lived heap: collecting less often roughly halves CPU time
 	debug.SetGCPercent(1500)
-	debug.SetMemoryLimit(40 << 30)
+	debug.SetMemoryLimit(12 << 30) // soft limit: collect earlier instead of growing (C03 quick peaked at 20 GB without it)
 	if *cpuprof != "" {
 		f, _ := os.Create(*cpuprof)
 		pprof.StartCPUProfile(f)
